@@ -1,41 +1,6 @@
-<<<<<<< HEAD
 #pragma once
 #include <stdint.h>
 #include <stddef.h>
 typedef int8_t  sbit_t;
 typedef uint8_t ubit_t;
 typedef uint8_t pbit_t;
-=======
-/* shim: in-tree bits.h (sbit_t, ubit_t) + osmo_load32be/osmo_store32be as in
- * libosmocore's generated bit32gen.h */
-#pragma once
-#include_next <osmocom/core/bits.h>
-#include <stdint.h>
-#include <stddef.h>
-
-static inline uint32_t osmo_load32be_ext(const void *p, uint8_t n)
-{
-	uint8_t i;
-	uint32_t r = 0;
-	const uint8_t *q = (uint8_t *)p;
-	for (i = 0; i < n; r |= ((uint32_t)q[i] << (32 - 8 * (1 + i))), i++);
-	return r;
-}
-
-static inline void osmo_store32be_ext(uint32_t x, void *p, uint8_t n)
-{
-	uint8_t i;
-	uint8_t *q = (uint8_t *)p;
-	for (i = 0; i < n; q[i] = (x >> ((n - 1 - i) * 8)) & 0xFF, i++);
-}
-
-static inline uint32_t osmo_load32be(const void *p)
-{
-	return osmo_load32be_ext(p, 32 / 8);
-}
-
-static inline void osmo_store32be(uint32_t x, void *p)
-{
-	osmo_store32be_ext(x, p, 32 / 8);
-}
->>>>>>> 290d82d36de733d6cf0d7509f16f5a44d8446d2e
